@@ -110,11 +110,29 @@ Theorem C15_channel_ni_har_entry : forall cfg i i',
 Proof. exact har_entry_ni. Qed.
 Print Assumptions C15_channel_ni_har_entry.
 
-(* no leak, but no HAR either: with the default marker the writer raises on every request whose URL had userinfo *)
-Theorem C15_channel_har_raises_on_userinfo : forall ui host i,
-  no_at host = true -> u_netloc (i_uri i) = ui ++ AT :: host -> har_entry true default_config i = None.
-Proof. exact har_raises_on_sanitised_userinfo. Qed.
-Print Assumptions C15_channel_har_raises_on_userinfo.
+(* HAR entries for URLs with userinfo (repo fix 8fd7266e): the entry is written, with the marker in place
+   of the userinfo and of every value of a sensitive query name ... *)
+Theorem C15_channel_har_userinfo_entry_written : forall cfg ui host i,
+  no_at host = true -> u_netloc (i_uri i) = ui ++ AT :: host -> headers_have_values i = true ->
+  exists e, har_entry true cfg i = Some e /\ u_netloc (h_url e) = repl cfg ++ AT :: host /\
+            h_url e = sanitize_url cfg (i_uri i) /\ query_clean cfg (h_query e) = true.
+Proof. exact har_userinfo_entry_written. Qed.
+Print Assumptions C15_channel_har_userinfo_entry_written.
+
+(* ... whereas the writer as it was before the fix (sentinel definition) raised on every such entry *)
+Theorem C15_channel_har_before_8fd7266e_raises : forall ui host i,
+  no_at host = true -> u_netloc (i_uri i) = ui ++ AT :: host -> har_entry_before_8fd7266e true default_config i = None.
+Proof. exact har_before_fix_raises. Qed.
+Print Assumptions C15_channel_har_before_8fd7266e_raises.
+
+Theorem C15_channel_har_written_before_8fd7266e_refuted : exists i,
+  har_entry_before_8fd7266e true default_config i = None /\
+  exists e, har_entry true default_config i = Some e /\
+            u_netloc (h_url e) = default_repl ++ [64;104]%N /\
+            h_query e = [([116;111;107;101;110]%N, default_repl)] /\
+            h_req_headers e = [(s_Authorization, default_repl)].
+Proof. exists w_har_interaction. exact har_fix_witness. Qed.
+Print Assumptions C15_channel_har_written_before_8fd7266e_refuted.
 
 (* the cassette as a whole: safe when the command line is the same ... *)
 Theorem C15_channel_ni_vcr_file_partial : forall cfg argv0 args is_ is_',
